@@ -201,3 +201,202 @@ def random_group(rng, gi, cfg):
 def random_groups(seed, n, cfg, gi0=1):
     rng = random.Random(seed)
     return [random_group(rng, gi0 + i, cfg) for i in range(n)]
+
+
+# ---- left-recursive grammars of the form of C08 ------------------------------------------------
+PLUS, MINUS, STAR_, LP, RP, NN = 43, 45, 42, 40, 41, 110
+
+
+def lr_group(rng, gi, cfg=None):
+    """A tower of 1..3 left-recursive rules  A <- A a1 / .. / A ak / b1 / ..  (direct, or through one other
+    rule per alternative), operands from a small non-left-recursive expression family."""
+    g = Gram(gi)
+    g.tags.add("lr")
+    height = rng.randint(1, 3)
+    ops = [[PLUS, MINUS], [STAR_], [94]]
+    rules = {}          # index -> root (filled later)
+    extra = []          # bodies of helper rules (indirect alternatives / operand rules)
+    nrules = height
+    lr = []
+    pending_helpers = []
+    use_state = rng.random() < 0.4
+    use_err = rng.random() < 0.4
+
+    def operand(level):
+        """non-left-recursive, non-nullable operand"""
+        c = rng.random()
+        if level < height and c < 0.6:
+            return g.ref(level + 1)
+        if c < 0.75:
+            e = g.lit([NN])
+        elif c < 0.85:
+            e = g.seq([g.lit([LP]), g.label(g.ref(1)), g.lit([RP])])
+        else:
+            e = g.un("plus", g.lit([NN]))
+        if rng.random() < 0.5:
+            e = g.action(e, err=use_err and rng.random() < 0.3)
+        return e
+
+    def rest(level):
+        opc = rng.choice(ops[level - 1])
+        items = [g.lit([opc])]
+        if use_state and rng.random() < 0.5:
+            items.append(g.state(rng.choice(["set", "inc"]), "x", rng.randint(1, 2), err=use_err and rng.random() < 0.2))
+        if rng.random() < 0.2:
+            items.append(g.pred(False, rng.choice(["true", "eq"]), "x", rng.randint(0, 2)))
+        r = operand(level)
+        items.append(g.label(r) if rng.random() < 0.7 else r)
+        return items
+
+    roots = []
+    for level in range(1, height + 1):
+        k = rng.randint(1, 2)
+        alts = []
+        for j in range(k):
+            rec_ref = g.ref(level)
+            first = g.label(rec_ref) if rng.random() < 0.8 else rec_ref
+            body = g.seq([first] + rest(level))
+            if rng.random() < 0.8:
+                body = g.action(body, err=use_err and rng.random() < 0.3)
+            if rng.random() < 0.3:      # through one other rule
+                nrules += 1
+                pending_helpers.append((nrules, body))
+                alts.append(g.ref(nrules))
+            else:
+                alts.append(body)
+        nb = rng.randint(1, 2)
+        for j in range(nb):
+            alts.append(operand(level) if level < height or j > 0 else g.action(g.lit([NN])))
+        roots.append(g.choice(alts))
+        lr.append(k)
+    for idx, body in pending_helpers:
+        roots.append(body)
+        lr.append(0)
+    g.rules = roots
+    g.lr = lr
+    g.disp = [""] * len(roots)
+    g.compute_args()
+    g.maydiverge = False
+    return g
+
+
+def lr_groups(seed, n, gi0=1):
+    rng = random.Random(seed)
+    return [lr_group(rng, gi0 + i) for i in range(n)]
+
+
+# ---- C07: shapes around rule references ---------------------------------------------------------
+C07_SHAPES = ["X", "eX", "e?X", "(eX)*a", "&Xe", "!Xe", "X/e", "e/X", "l:X", "X{}", "&{t}X", "#{}X", "''X", "[^]X", "[]X",
+              "(eX)?a", "X+", "&{f}X", "aX", "X//e", "e//X", "(e/'')X", "&(eX)a", "l:(e?)X{}", "!{f}X", "e/(e?e?)X", "e/(''/a?)X", "(&a/(e? ''))X"]
+C07_E = ["a", "a?", "''", "[ab]", "a*", "&a", "!a"]
+
+
+def c07_body(g, shape, x, e):
+    """x: target rule index, e: small expression id"""
+    def E():
+        if e == "a":
+            return g.lit([A])
+        if e == "a?":
+            return g.un("opt", g.lit([A]))
+        if e == "''":
+            return g.lit([])
+        if e == "[ab]":
+            return g.cls((A, B), (), False, False)
+        if e == "a*":
+            return g.un("star", g.lit([A]))
+        if e == "&a":
+            return g.un("and", g.lit([A]))
+        return g.un("not", g.lit([A]))
+    X = lambda: g.ref(x)
+    a = lambda: g.lit([A])
+    s = shape
+    if s == "X":
+        return X()
+    if s == "eX":
+        return g.seq([E(), X()])
+    if s == "e?X":
+        return g.seq([g.un("opt", E()), X()])
+    if s == "(eX)*a":
+        return g.seq([g.un("star", g.seq([E(), X()])), a()])
+    if s == "&Xe":
+        return g.seq([g.un("and", X()), E()])
+    if s == "!Xe":
+        return g.seq([g.un("not", X()), E()])
+    if s == "X/e":
+        return g.choice([X(), E()])
+    if s == "e/X":
+        return g.choice([E(), X()])
+    if s == "l:X":
+        return g.seq([g.label(X()), a()])
+    if s == "X{}":
+        return g.action(X())
+    if s == "&{t}X":
+        return g.seq([g.pred(False, "true"), X()])
+    if s == "!{f}X":
+        return g.seq([g.pred(True, "false"), X()])
+    if s == "&{f}X":
+        return g.seq([g.pred(False, "false"), X()])
+    if s == "#{}X":
+        return g.seq([g.state("set", "x", 1), X()])
+    if s == "''X":
+        return g.seq([g.lit([]), X()])
+    if s == "[^]X":
+        return g.seq([g.cls((), (), True, False), X()])
+    if s == "[]X":
+        return g.seq([g.cls((), (), False, False), X()])
+    if s == "(eX)?a":
+        return g.seq([g.un("opt", g.seq([E(), X()])), a()])
+    if s == "X+":
+        return g.un("plus", X())
+    if s == "aX":
+        return g.seq([a(), X()])
+    if s == "X//e":
+        return g.recover(X(), E(), ["la"])
+    if s == "e//X":
+        return g.recover(g.seq([E(), g.throw("la")]), X(), ["la"])
+    if s == "(e/'')X":
+        return g.seq([g.choice([E(), g.lit([])]), X()])
+    if s == "&(eX)a":
+        return g.seq([g.un("and", g.seq([E(), X()])), a()])
+    if s == "e/(e?e?)X":
+        return g.choice([E(), g.seq([g.seq([g.un("opt", E()), g.un("opt", a())]), X()])])
+    if s == "e/(''/a?)X":
+        return g.choice([E(), g.seq([g.choice([g.lit([]), g.un("opt", a())]), X()])])
+    if s == "(&a/(e? ''))X":
+        return g.seq([g.choice([g.un("and", a()), g.seq([g.un("opt", E()), g.lit([])])]), X()])
+    if s == "l:(e?)X{}":
+        return g.action(g.seq([g.label(g.un("opt", E())), X()]))
+    raise ValueError(s)
+
+
+def c07_group(gi, spec):
+    """spec: list per rule of (shape, target, e, with_base)"""
+    g = Gram(gi)
+    roots = []
+    for (shape, x, e, base) in spec:
+        b = c07_body(g, shape, x, e)
+        if base:
+            b = g.choice([b, g.lit([B])])
+        roots.append(b)
+    g.rules = roots
+    g.disp = [""] * len(roots)
+    g.compute_args()
+    g.maydiverge = True     # always run under a budget
+    return g
+
+
+def c07_specs(rng, nrand, exhaustive_rules=1):
+    specs = []
+    # exhaustive: single rule referring to itself, every shape x every e
+    for s in C07_SHAPES:
+        for e in C07_E:
+            for base in (False, True):
+                specs.append([(s, 1, e, base)])
+    # exhaustive over shapes for two mutually referring rules (e fixed per rule)
+    for s1 in C07_SHAPES:
+        for s2 in C07_SHAPES:
+            specs.append([(s1, 2, "a?", True), (s2, 1, "''", True)])
+    for _ in range(nrand):
+        nr = rng.randint(2, 3)
+        specs.append([(rng.choice(C07_SHAPES), rng.randint(1, nr), rng.choice(C07_E), rng.random() < 0.7) for _ in range(nr)])
+    return specs
